@@ -308,6 +308,22 @@ def c18_static(task):
             n = n.value
         return n
 
+    def returned(fn):
+        """the expressions a function returns, seen through locals that are assigned exactly once (`t = e; return t` returns e)"""
+        once = {}
+        for n in ast.walk(fn):
+            if isinstance(n, ast.Assign) and len(n.targets) == 1 and isinstance(n.targets[0], ast.Name):
+                once.setdefault(n.targets[0].id, []).append(n.value)
+        vals = []
+        for n in ast.walk(fn):
+            if isinstance(n, ast.Return) and n.value is not None:
+                v = n.value
+                for _ in range(4):
+                    if isinstance(v, ast.Name) and len(once.get(v.id, [])) == 1:
+                        v = once[v.id][0]
+                vals.append(v)
+        return vals
+
     init = prog.func("bt.backtest.Result.__init__").node
     ok = False
     for n in ast.walk(init):
@@ -318,10 +334,10 @@ def c18_static(task):
                 ok = True
     ob("C18/Result.__init__/price-frame-is-strategy.prices-by-backtest-name", ok, dict(source=ast.unparse(init)[:300]))
     gt = prog.func("bt.backtest.Result.get_transactions").node
-    ok = any(isinstance(n, ast.Return) and isinstance(n.value, ast.Call) and isinstance(n.value.func, ast.Attribute) and n.value.func.attr == "get_transactions"
-             and isinstance(n.value.func.value, ast.Attribute) and n.value.func.value.attr == "strategy" for n in ast.walk(gt))
+    ok = any(isinstance(v, ast.Call) and isinstance(v.func, ast.Attribute) and v.func.attr == "get_transactions"
+             and isinstance(v.func.value, ast.Attribute) and v.func.value.attr == "strategy" for v in returned(gt))
     ob("C18/Result.get_transactions/returns-the-strategy's-list", ok, dict(source=ast.unparse(gt)[-200:]))
     pos = prog.func("bt.backtest.Backtest.positions").node
-    ok = any(isinstance(n, ast.Return) and is_attr_chain(n.value, "strategy", "positions") is not None for n in ast.walk(pos))
+    ok = any(is_attr_chain(v, "strategy", "positions") is not None for v in returned(pos))
     ob("C18/Backtest.positions/is-the-strategy's", ok, dict(source=ast.unparse(pos)[-120:]))
     return out
